@@ -1599,8 +1599,9 @@ else:
             connector_owner = True
             connector = TCPConnector(force_close=True)
 
+        # (cookies= stays in kwargs: cookies of this request, not of the
+        # session, which would send them to wherever a redirect leads)
         session = ClientSession(
-            cookies=kwargs.pop("cookies", None),
             version=version,
             timeout=kwargs.pop("timeout", sentinel),
             connector=connector,
